@@ -25,10 +25,39 @@ CLAIMED = {
          "Coq invariant proof (induction over attempt lists, frame lemmas for every consensus pass) + tamper-grammar correspondence"),
  "C02": ("Proved in Coq for all operation sequences of a node (insertions in any order incl. late witnesses, ProcessSigPool, commits): commit callbacks carry "
          "consecutive indexes from 0; a delivered block is reported by the store with the delivered body for ever, signatures only grow; every recorded "
-         "signature is over the node's own body. Round-received monotonicity is stated and checked by the oracle on every history, not yet proved. "
+         "signature is over the node's own body; round-received strictly increases along the delivery sequence (invariant of the pending-rounds queue: "
+         "strictly sorted, above the last consensus round, rounds contiguous, a processed round stays flagged decided and is never re-queued). "
          "Tied to the code by per-action comparison of all observables of real cores in random gossip histories (static and dynamic membership)",
-         "HgImpl model with in-memory store semantics; Badger DB copy covered by C16; fast-sync reset not in these theorems (C13)",
+         "HgImpl model with in-memory store semantics; Badger DB copy covered by C16; fast-sync reset not in these theorems (C13): roundLowerBound is None "
+         "in every state of the model",
          "Coq invariant proof over operation lists + gossip-history correspondence + implementation oracle"),
+ "C04": ("Proved in Coq for every reachable state of every operation sequence over events whose identifiers determine them: Lamport timestamps (event field "
+         "and the cache used by frames) are 1 + max of the parents', hence strictly increasing along every ancestry chain; the frame sort is the sorted "
+         "permutation by (timestamp, signature rank), unique when keys are distinct; in a frame and in a delivered block an ancestor precedes its descendant; "
+         "a block's payload is the concatenation of its frame events' payloads (contiguous, creator order) and the frame is the cached frame of its "
+         "round-received; round-received is assigned once and kept, received lists hold exactly the events of that round-received without repetition, frames "
+         "of distinct rounds are disjoint, so no event is committed twice. NOT proved (kept as Definitions, evaluated by the oracle on every history): "
+         "round-received monotone along ancestry, hence the cross-block part of 'ancestors are committed earlier'",
+         "15 theorems, no axioms; premise: event ids (hash ordinals) determine the event; signature ranks / coin bits are harness-supplied data; "
+         "fast-sync reset not modelled",
+         "Coq invariant proof over operation lists + gossip-history correspondence (keys e/d/r) + implementation oracle (orderOracle, frameOracle)"),
+ "C17": ("State gate of the node (processRPC gate, the four handlers' answer classes, read-only sync / fast-forward handlers with the eventDiff + limit + "
+         "knownEvents answer, join / addTransaction pool arithmetic, Init's initial state, checkSuspend / Suspend) modelled in Coq; proved for every "
+         "non-Babbling state and every sequence of requests (any eager-sync effect), transactions and heartbeats: state, DAG, self-events, delivered "
+         "blocks, undetermined events and internal-transaction pool unchanged, only the transaction pool grows, every request refused except a "
+         "Suspended sync, whose answer is the same function as in Babbling and a correct difference; checkSuspend suspends a Babbling node iff over "
+         "limit x validators or evicted. Tied to the code by real Nodes driven through the hooks in all 6 states, no-quorum runs and a consensus eviction",
+         "10 theorems, no axioms; the effect of core.sync on a Babbling node is data; handlers are called synchronously: the concurrent check-then-act "
+         "window between the gate and a handler is not covered",
+         "Coq invariant proof over input lists + per-request correspondence with real Nodes + implementation oracles"),
+ "C20": ("Retry loop of both socket clients, the net/rpc + jsonrpc error conventions and the JSON field mapping of Block / CommitResponse / transactions "
+         "(base64 at digit level, nil vs empty, invalid UTF-8) modelled in Coq; proved: a success is the reply of the first attempt that went through, "
+         "all attempts failing is an error, at most three attempts / deliveries, the mapping is the identity on content (nil and empty kept apart) for "
+         "valid-UTF-8 strings. Three refutation witnesses are findings replayed on the Go code: an empty error message is reported as an empty success, "
+         "a nil snapshot / state hash is reported as an error, invalid UTF-8 strings are sanitised. Tied to the code by real socket proxies in both "
+         "directions through a fault-injecting message-aware relay next to the inmem proxy",
+         "15 theorems (3 refutations), no axioms; TCP, net/rpc, timeouts are runtime; a retried call is delivered again (noted, at-least-once)",
+         "Coq theorems (induction over attempt lists, base64 round trip) + model/implementation correspondence + content / order / failure oracles"),
  "C16": ("Store model (LRU, RollingIndex with roll, InmemStore, BadgerStore as cache+DB) proved to refine a plain map for all operation sequences and all cache "
          "sizes under the admission discipline, also across reopen; cache coherence unconditionally; listings exact; the deviations of the real store from a "
          "plain map are proved as refutation witnesses (W1-W5). Tied to the code by replaying every operation of generated sequences on the real BadgerStore",
